@@ -664,6 +664,41 @@ def integer_images(rep, rng):
                           f"{li.tolist()} vs {lf.tolist()}", {"X": Xi.tolist(), "seed": 1234 + k})
 
 
+def unit_images(rep, rng):
+    """The same images in small / large units (times a power of two, exact; same global seed): the same unit-norm components,
+    eigenvalues times the square of the factor — the iteration and its stopping rule work on normalised vectors."""
+    from FDApy.preprocessing.dim_reduction import fcp_tpa as F
+    n, m1, m2 = 7, 6, 5
+    X = gen_data(rng, "smooth", n, m1, m2)
+    x1, x2 = np.linspace(0, 1, m1), np.linspace(0, 2, m2)
+    out = {}
+    for e in (0, -24, 20):
+        est = F.FCPTPA(n_components=3, normalize=False)
+        with warnings.catch_warnings():
+            warnings.simplefilter("ignore")
+            np.random.seed(4321)
+            try:
+                est.fit(fd.dense([x1, x2], X * 2.0 ** e), {"v": pen(m1), "w": pen(m2)}, {"v": (1e-3, 1e1), "w": (1e-3, 1e1)},
+                        tolerance=1e-6, max_iteration=30)
+                out[e] = (np.asarray(est.eigenvalues, float), np.asarray(est.eigenfunctions.values, float))
+            except Exception as ex:  # noqa: BLE001
+                out[e] = ex
+    if isinstance(out[0], Exception):
+        return
+    l0, e0 = out[0]
+    for e in (-24, 20):
+        rep.case(("unit-images", e, X.tobytes()), kind="scale/units")
+        if isinstance(out[e], Exception):
+            rep.violation(f"FCPTPA.fit raised {type(out[e]).__name__}: {out[e]} on the same images times 2^{e}"[:300], {"X": C.hexf(X), "factor_exponent": e})
+            continue
+        l1, e1 = out[e]
+        c = 2.0 ** e
+        if l1.shape != l0.shape or np.max(np.abs(l1 - c * c * l0)) > 1e-6 * c * c * float(np.max(np.abs(l0))) or e1.shape != e0.shape \
+                or not np.all(np.isfinite(e1)) or np.max(np.abs(e1 - e0)) > 1e-5 * max(1.0, float(np.max(np.abs(e0)))):
+            rep.violation(f"FCPTPA on the same images times 2^{e} (same seed): eigenvalues {l1.tolist()} are not 2^{2 * e} times {l0.tolist()}, or "
+                          f"other eigenimages: the components depend on the unit of the data", {"X": C.hexf(X), "factor_exponent": e})
+
+
 # ----------------------------------------------------------------------------------
 def run(rep, props, replay=None):
     quick = C.tier() == "quick"
@@ -673,6 +708,7 @@ def run(rep, props, replay=None):
     adversarial(rep, rng, quick)
     real_runs(rep, rng, quick)
     integer_images(rep, rng)
+    unit_images(rep, np.random.default_rng([C.seed(), 17, 5]))
 
 
 def replay_case(rep, rp):
